@@ -88,7 +88,7 @@ theorem pton6_ntop6 (v : Nat) (hv : v < 2 ^ 128) : pton6 (ntop6 v) = some v := b
         have := pton6_gap [] [] (by intro n hn; simp at hn) (by intro n hn; simp at hn) (some (v % 4294967296))
           (by intro x hx'; cases hx'; exact hx) (by simp)
         simp only [List.map_nil, List.length_nil, List.nil_append, List.append_nil] at this
-        simp only [List.map_cons, List.map_nil] at hws ⊢
+        simp only [words, List.map_cons, List.map_nil] at hws ⊢
         simp only [List.take, List.drop, List.nil_append, Nat.zero_add] at hws ⊢
         simp at this ⊢
         rw [this]
@@ -105,7 +105,7 @@ theorem pton6_ntop6 (v : Nat) (hv : v < 2 ^ 128) : pton6 (ntop6 v) = some v := b
         have := pton6_gap [] [(words v).getD 5 0] (by intro n hn; simp at hn) hs5 (some (v % 4294967296))
           (by intro x hx'; cases hx'; exact hx) (by simp)
         simp only [List.map_nil, List.length_nil, List.nil_append] at this
-        simp only [List.map_cons, List.map_nil] at hws ⊢
+        simp only [words, List.map_cons, List.map_nil] at hws ⊢
         simp only [List.take, List.drop, List.nil_append, Nat.zero_add] at hws ⊢
         simp [words] at this ⊢
         rw [this]
